@@ -294,6 +294,41 @@ def rule_registry(ctx) -> None:
         raise AnalysisError(f"C03.revision-flow: only {n} revision hand-over sites found")
 
 
+def rule_ahab_v2_srk_ids(ctx) -> None:
+    """C03.ahab-v2-srk-id: the SRK hash of an AHAB v2 table covers, per record, an SRK Data container that carries the record's index
+    ("SRK id").  Both constructions of the table from an ordered key list - the image builder (SRKTableV2.load_from_config) and
+    `nxpcrypto rot` (RotSrkTableAhabV2) - give record i the id i: the id argument of SRKData / SRKRecordV2.create_from_key is the index
+    of the enumeration over the keys.  With the default id 0 for every record the two tool paths report different fuse values."""
+    SRKF, ROTF = "spsdk/image/ahab/ahab_srk.py", "spsdk/utils/crypto/rot.py"
+    sites = [ctx.own(SRKF, "SRKTableV2", "load_from_config"), ctx.own(ROTF, "RotSrkTableAhabV2", "__init__")]
+    for f in sites:
+        ok_calls, all_calls = [], []
+        for c in A.calls_in(f.node, "create_from_key"):
+            recv = norm(c.func.value) if isinstance(c.func, ast.Attribute) else ""
+            if recv.endswith("SRKData"):
+                idx = A.arg_of(c, 1, "srk_id")
+            elif recv.endswith("SRKRecordV2"):
+                idx = A.arg_of(c, None, "srk_id")
+            else:
+                continue
+            all_calls.append(c)
+            if not isinstance(idx, ast.Name):
+                continue
+            # the name is the index variable of an enclosing enumerate(...) loop or comprehension
+            for anc in A.ancestors(c):
+                gens = [(g.target, g.iter) for g in getattr(anc, "generators", [])] + ([(anc.target, anc.iter)] if isinstance(anc, ast.For) else [])
+                for tgt, it in gens:
+                    if isinstance(it, ast.Call) and A.call_name(it) == "enumerate" and isinstance(tgt, ast.Tuple) and isinstance(tgt.elts[0], ast.Name) and tgt.elts[0].id == idx.id \
+                            and not (len(it.args) > 1 or it.keywords):
+                        ok_calls.append(c)
+                    elif isinstance(it, ast.Call) and A.call_name(it) == "range" and isinstance(tgt, ast.Name) and tgt.id == idx.id and len(it.args) == 1:
+                        ok_calls.append(c)  # for ix in range(len(keys))
+        ctx.chk.decide(bool(ok_calls), "C03.ahab-v2-srk-id", f.qual, "record i of the table gets the SRK data id i (index of the enumeration over the keys)",
+                       (f"`{norm(all_calls[0])[:90]}` does not pass the record index" if all_calls else "no SRK data / record is created with an explicit id: every record keeps the default id 0"),
+                       "SRKData.create_from_key(pub_key, ix) / SRKRecordV2.create_from_key(key, srk_id=ix)", A.loc(f.module.relpath, all_calls[0] if all_calls else f.node))
+    ctx.chk.floor("C03.ahab-v2-srk-id", 2)
+
+
 def rule_roundtrip(ctx) -> None:
     """C03.header-roundtrip: the two certificate block headers interpreted on model objects (E19): parse(export(x)) has the fields of x."""
     from ..engines import roundtrip
@@ -316,6 +351,7 @@ def run(ctx) -> None:
     ctx.rule(rule_wire)
     ctx.rule(rule_registry)
     ctx.rule(rule_roundtrip)
+    ctx.rule(rule_ahab_v2_srk_ids)
     from ..engines import attrproto
     ctx.rule(lambda c: attrproto.check(c, "C03.ca-attribute", "ca", 4, 2))
     ctx.chk.assumptions = ["PublicKeyRsa/Ecc.export and coordinate_size are decided in C08", "AHAB/HAB SRK table constructions are decided in C06/C07",
